@@ -13,6 +13,7 @@ import (
 	"github.com/klev-dev/klevdb/pkg/index"
 	"github.com/klev-dev/klevdb/pkg/message"
 	"github.com/klev-dev/klevdb/pkg/segment"
+	"github.com/klev-dev/klevdb/pkg/vhook"
 )
 
 var (
@@ -181,6 +182,7 @@ func (l *log) Publish(msgs []message.Message) (int64, error) {
 		l.readers = append(l.readers, newWriter.reader)
 
 		l.readersMu.Unlock()
+		vhook.Pause("publish.rolled")
 
 		if err := oldWriter.Close(); err != nil {
 			return OffsetInvalid, err
@@ -399,6 +401,7 @@ func (l *log) delete(offsets map[int64]struct{}) ([]Message, int64, error) {
 	if err != nil {
 		return nil, 0, err
 	}
+	vhook.Pause("delete.found")
 
 	wasWriter := false
 	l.writerMu.Lock()
@@ -410,6 +413,7 @@ func (l *log) delete(offsets map[int64]struct{}) ([]Message, int64, error) {
 		}
 	}
 	l.writerMu.Unlock()
+	vhook.Pause("delete.synced")
 
 	mversion := l.opts.Version.NewSegmentsVersion.messages
 	iversion := l.opts.Version.NewSegmentsVersion.index
@@ -438,6 +442,7 @@ func (l *log) delete(offsets map[int64]struct{}) ([]Message, int64, error) {
 	if err != nil {
 		return nil, 0, err
 	}
+	vhook.Pause("delete.rewritten")
 
 	if len(rs.DeletedMessages) == 0 {
 		// deleted nothing, just remove rewrite files
